@@ -1,1 +1,3 @@
 import Driver.Gae
+import Driver.Tabular
+import Driver.Wrappers
